@@ -286,7 +286,7 @@ def rule_plain_data(eng, rep):
                     rec = [c for c in ast.walk(st.value) if isinstance(c, ast.Call) and any(t.fid == rn.fid for t in eng.res.calls[id(c)].targets)]
                     okc = bool(rec) and isinstance(st.value, (ast.DictComp, ast.ListComp))
                 else:
-                    okc = is_none(st.value) and any("isnan" in ekey(cfgr.ast_of(x)) for x in cfgr.nodes_of_kind("cond"))
+                    okc = is_none(st.value) and any(("isnan" in ekey(cfgr.ast_of(x)) or "isfinite" in ekey(cfgr.ast_of(x))) for x in cfgr.nodes_of_kind("cond"))
         if okc:
             rep.ok(rule, site_r, "%s handled (%s)" % (ty, "recursion over all elements" if ty != "float" else "NaN -> None"))
         else:
